@@ -322,6 +322,17 @@ impl Parser {
         let mut ident = Self::ident(ident_node).to_err_vec()?;
         ident.mark_const();
 
+        // A class is compiled to a function named like the class; `__module__` and `__fn<n>`
+        // are the names of the functions the compiler generates itself.
+        let is_generated_name = ident.name() == "__module__"
+            || ident.name().strip_prefix("__fn").map_or(false, |rest| {
+                !rest.is_empty() && rest.bytes().all(|b| b.is_ascii_digit())
+            });
+
+        if is_generated_name {
+            return Err(vec![new_err(ident_span, &input.user_data().get_source_file_name(), format!("`{}` cannot be the name of a class: the compiler gives this name to a function it generates", ident.name()))]);
+        }
+
         let has_been_declared = input.user_data().get_ident_from_name_local(ident.name());
 
         if let Some(has_been_declared) = has_been_declared {
